@@ -33,6 +33,22 @@ def IsDist (es : List WEdge) (s v : Nat) : Option Int → Prop
 def NegCycleFrom (es : List WEdge) (s : Nat) : Prop :=
   ∃ c x, Reach es s c ∧ Walk es c c x ∧ x < 0
 
+/-- `F` is a spanning forest of the undirected multigraph `es`: a sub-multiset of the edges (in
+input order) that connects whatever `es` connects and in which every edge is a bridge -/
+def SpanningForest (es F : List WEdge) : Prop :=
+  F.Sublist es ∧
+  (∀ e ∈ es, Reach (F ++ F.map fun e => (e.2.1, e.1, e.2.2)) e.1 e.2.1) ∧
+  ∀ (i : Nat) (h : i < F.length),
+    ¬ Reach ((F.eraseIdx i) ++ (F.eraseIdx i).map fun e => (e.2.1, e.1, e.2.2)) F[i].1 F[i].2.1
+
+def weightOf (F : List WEdge) : Int := (F.map fun e => e.2.2).sum
+
+def IsMinSpanningForest (es F : List WEdge) : Prop :=
+  SpanningForest es F ∧ ∀ G, SpanningForest es G → weightOf F ≤ weightOf G
+
+/-- `u` and `v` lie on a common closed walk -/
+def Mutual (es : List WEdge) (u v : Nat) : Prop := Reach es u v ∧ Reach es v u
+
 /-- unit-weight view of an unweighted edge list (BFS hop distance = distance at unit weights) -/
 def unitW (es : List (Nat × Nat)) : List WEdge := es.map fun e => (e.1, e.2, 1)
 
@@ -138,6 +154,12 @@ inductive PairOut where
   | unbounded
   deriving Repr, DecidableEq
 
+/-- what the property compares of a single-pair outcome: status class and objective -/
+def PairOut.obs : PairOut → Option (Option Int)
+  | .found _ x => some (some x)
+  | .infeasible => some none
+  | .unbounded => none
+
 /-- verified checker for `dijkstra_edges` / `bellman_ford` / `bfs_edges` with a target
 (`cert` = a potential for found/infeasible, a closed node walk for unbounded) -/
 def checkPair (n : Nat) (es : List WEdge) (s t : Nat) (o : PairOut)
@@ -189,8 +211,6 @@ def checkAnyPath (n : Nat) (es : List WEdge) (s t : Nat) (o : Option (List Nat))
   | none => !reachB n es s t
 
 /-! ### Minimum spanning forests (kruskal) -/
-
-def weightOf (F : List WEdge) : Int := (F.map fun e => e.2.2).sum
 
 def sublists {α} : List α → List (List α)
   | [] => [[]]
@@ -272,6 +292,17 @@ def isPrFixed (n : Nat) (es : List (Nat × Nat)) (d : Rat) (x : List Rat) : Bool
   x.length == n && prStep n es d x == x
 
 def absR (q : Rat) : Rat := if q < 0 then -q else q
+
+/-- the step as a function of the score *function* (entry `v` of `prStep`) -/
+def stepF (n : Nat) (es : List (Nat × Nat)) (d : Rat) (f : Nat → Rat) (v : Nat) : Rat :=
+  (1 - d) / n + d * ((es.filter fun e => e.2 == v).map (fun e => f e.1 / outCount es e.1)).sum
+    + d * (((List.range n).filter fun u => outCount es u == 0).map f).sum / n
+
+/-- L1 distance of the first `n` entries -/
+def l1dist (n : Nat) (a b : List Rat) : Rat :=
+  ((List.range n).map fun v => absR (a.getD v 0 - b.getD v 0)).sum
+
+def validU (n : Nat) (es : List (Nat × Nat)) : Bool := es.all fun e => decide (e.1 < n) && decide (e.2 < n)
 
 /-- every entry of `xs` within `eps` of the corresponding entry of `ys` -/
 def within (xs ys : List Rat) (eps : Rat) : Bool :=
